@@ -121,6 +121,20 @@ def gen_case(rng, tier):
                 repl = M([['ra', L([S(7)], prio=-1) if rng.random() < 0.5 else S(8, prio=-1)], ['rb', S(2)], ['rc', M([['x', S(1, prio=-1)]])]], **{'del': True})
                 d = copy.deepcopy(d)
                 d['items'] = [it for it in d['items'] if it[0] != k] + [[k, repl]]
+        if i > 0 and rng.random() < 0.12 and out:
+            # a !merge mapping addressing positions of an older list, two or more of them value-less !del, keys written in any
+            # order (not ascending): every position names the list as it was before the merge (round 9, C04-i)
+            prev = out[-1]
+            tops = [(k, n) for k, n in prev['items'] if n['t'] == 'seq' and len(n['items']) >= 3 and not emit.has_flags(n)
+                    and not any(emit.has_flags(x) for _, x in emit.walk(n)) and not (fpath and k == fpath[0])]
+            if tops:
+                k, n = rng.choice(tops)
+                ln = len(n['items'])
+                idx = rng.sample(range(ln), rng.randrange(2, min(ln, 4) + 1))
+                ents = [[j, S(None, vdel=True)] for j in idx[:max(2, len(idx) - 1)]] + [[j, S(900 + j)] for j in idx[max(2, len(idx) - 1):]]
+                rng.shuffle(ents)
+                d = copy.deepcopy(d)
+                d['items'] = [it for it in d['items'] if it[0] != k] + [[k, M(ents, **{'del': False})]]
         if i > 0 and rng.random() < 0.15:
             # an explicitly deleting scalar that merely is falsy: it has a value, the key stays
             tops = [k for k, _ in docs[i - 1]['items'] if not (fpath and k == fpath[0])]
